@@ -671,9 +671,9 @@ func TestVerif_C07(t *testing.T) {
 
 	full := []int{0, 1, 2}
 	// probability with which a call is also handed to the Coq checker
-	coqEvery := 55
+	coqEvery := 100
 	if vh.Thorough() {
-		coqEvery = 160
+		coqEvery = 300
 	}
 	for ai, a := range fx.addrs {
 		h := a.flat(full)
